@@ -377,7 +377,7 @@ pub fn sweep_c18(seed: u64, exhaust_len: usize, sampled: u64) -> CompOutcome {
 /// top value would be hit several times (2^33.6 draws for the spans around 2^32, where the
 /// sampling method of rand changes from 32-bit to 64-bit words).
 pub fn prng_boundary_hunt(seed: u64, draws_wide: u64, stats: &mut Stats) -> Vec<Found2> {
-    let spans: [(usize, u64); 9] = [
+    let mut spans: Vec<(usize, u64)> = vec![
         (2, 4_096),
         (3, 4_096),
         (255, 65_536),
@@ -388,33 +388,61 @@ pub fn prng_boundary_hunt(seed: u64, draws_wide: u64, stats: &mut Stats) -> Vec<
         (1usize << 32, draws_wide),
         ((1usize << 32) + 1, draws_wide),
     ];
+    // rejection zones: a sampler that maps a w-bit word onto [0, n) rejects (or mishandles) a zone
+    // of 2^w mod n values, i.e. with probability up to n / 2^(w+1) per draw - largest for n just
+    // below a power of two of the word size and tiny for small n. Every magnitude class 2^k..2^(k+1)
+    // gets seeded random spans (plus the span just above 2^k, the worst case of a k+1-bit word) with
+    // enough draws that a zone of relative size 2^-33 * n is entered for the classes k >= 9.
+    let per_class = (draws_wide / 2_000).clamp(400_000, 40_000_000);
+    {
+        let mut rng = ChaCha8Rng::seed_from_u64(desc::derive_seed(seed, "C18.hunt.spans", 0));
+        for k in 2..=62u32 {
+            let lo = 1usize << k;
+            spans.push((lo + 1, per_class));
+            for _ in 0..6 {
+                spans.push((lo + rng.random_range(1..lo), per_class));
+            }
+        }
+    }
     let nt = crate::engine::n_threads() as u64;
     let mut found = vec![];
     for (si, (span, draws)) in spans.iter().enumerate() {
         let per = draws / nt + 1;
-        let res: Vec<(u64, u64, Option<(u64, u64, usize, usize)>)> = std::thread::scope(|s| {
+        let res: Vec<(u64, u64, Option<(u64, u64, usize, usize, u8)>)> = std::thread::scope(|s| {
             let hs: Vec<_> = (0..nt)
                 .map(|t| {
                     s.spawn(move || {
                         let sd = desc::derive_seed(seed, "C18.hunt", (si as u64) << 8 | t);
                         let mut rng = ChaCha8Rng::seed_from_u64(sd);
                         let mut src = GenerationSource::Rand(&mut rng);
-                        let base = if t % 2 == 0 { 0usize } else { 7 };
+                        // three call shapes: gen_range from 0, gen_range from 7, choose_index
+                        let method = (t % 3) as u8;
+                        let base = if method == 1 { 7usize } else { 0 };
                         let (mut top, mut n) = (0u64, 0u64);
                         let mut bad = None;
-                        for i in 0..per {
-                            let x = src.gen_range(base, base + span);
-                            n += 1;
-                            if x == base + span - 1 {
-                                top += 1;
+                        let cur = std::cell::Cell::new(0u64);
+                        let r = std::panic::catch_unwind(std::panic::AssertUnwindSafe(|| {
+                            for i in 0..per {
+                                cur.set(i);
+                                let x = if method == 2 { src.choose_index(*span) } else { src.gen_range(base, base + span) };
+                                n += 1;
+                                if x == base + span - 1 {
+                                    top += 1;
+                                }
+                                if x < base || x >= base + span {
+                                    bad = Some((sd, i, base, x, method));
+                                    break;
+                                }
+                                if i % (1 << 22) == 0 {
+                                    crate::engine::tick();
+                                }
                             }
-                            if x < base || x >= base + span {
-                                bad = Some((sd, i, base, x));
-                                break;
-                            }
-                            if i % (1 << 22) == 0 {
-                                crate::engine::tick();
-                            }
+                        }));
+                        if r.is_err() {
+                            let _ = crate::exec::take_panic();
+                            // a panic inside the draw (e.g. an arithmetic overflow): reported as an
+                            // out-of-range result with the impossible value usize::MAX
+                            bad = Some((sd, cur.get(), base, usize::MAX, method));
                         }
                         (n, top, bad)
                     })
@@ -426,17 +454,59 @@ pub fn prng_boundary_hunt(seed: u64, draws_wide: u64, stats: &mut Stats) -> Vec<
         for (n, top, bad) in res {
             stats.evaluations += n;
             tops += top;
-            if let Some((sd, i, base, x)) = bad {
+            if let Some((sd, i, base, x, method)) = bad {
                 if found.is_empty() {
+                    let call = if method == 2 { format!("choose_index({})", span) } else { format!("gen_range({}, {})", base, base + span) };
                     found.push(Found2 {
                         index: i,
-                        case: json!({"hunt": {"prng_seed": sd.to_string(), "draws_before": i.to_string(), "a": base.to_string(), "b": (base + span).to_string()}}),
-                        violation: Violation::new("C18", "out-of-range(gen_range)", format!("PRNG source: gen_range({}, {}) returned {} on draw #{} of ChaCha8Rng::seed_from_u64({})", base, base + span, x, i, sd)),
+                        case: json!({"hunt": {"prng_seed": sd.to_string(), "draws_before": i.to_string(), "a": base.to_string(), "b": (base + span).to_string(), "method": if method == 2 { "choose_index" } else { "gen_range" }}}),
+                        violation: Violation::new("C18", if method == 2 { "out-of-range(choose_index)" } else { "out-of-range(gen_range)" }, format!("PRNG source: {} returned {} on draw #{} of ChaCha8Rng::seed_from_u64({})", call, x, i, sd)),
                     });
                 }
             }
         }
-        stats.add(&format!("probe.prng_draws_hitting_the_last_value_of_span_{}", span), tops);
+        if si < 9 {
+            stats.add(&format!("probe.prng_draws_hitting_the_last_value_of_span_{}", span), tops);
+        } else {
+            stats.add("probe.prng_draws_hitting_the_last_value_of_a_magnitude_class_span", tops);
+            stats.add("prng.magnitude_class_spans", 1);
+        }
+        if !found.is_empty() {
+            break;
+        }
+    }
+    // gen_ascii_char: a 95-entry table indexed by a bounded draw
+    {
+        let mut rng = ChaCha8Rng::seed_from_u64(desc::derive_seed(seed, "C18.hunt.ascii", 0));
+        let mut src = GenerationSource::Rand(&mut rng);
+        let n = (draws_wide / 400).min(50_000_000);
+        let r = std::panic::catch_unwind(std::panic::AssertUnwindSafe(|| {
+            let mut bad = None;
+            for i in 0..n {
+                let c = src.gen_ascii_char();
+                if !(0x20..0x7f).contains(&(c as u32)) {
+                    bad = Some((i, c as u32));
+                    break;
+                }
+            }
+            bad
+        }));
+        stats.evaluations += n;
+        let _ = crate::exec::take_panic();
+        match r {
+            Ok(None) => {}
+            Ok(Some((i, c))) if found.is_empty() => found.push(Found2 {
+                index: i,
+                case: json!({"hunt": {"prng_seed": desc::derive_seed(seed, "C18.hunt.ascii", 0).to_string(), "draws_before": i.to_string(), "method": "gen_ascii_char"}}),
+                violation: Violation::new("C18", "out-of-range(gen_ascii_char)", format!("PRNG source: gen_ascii_char returned U+{:04X} on draw #{}", c, i)),
+            }),
+            Err(_) if found.is_empty() => found.push(Found2 {
+                index: 0,
+                case: json!({"hunt": {"prng_seed": desc::derive_seed(seed, "C18.hunt.ascii", 0).to_string(), "draws_before": n.to_string(), "method": "gen_ascii_char"}}),
+                violation: Violation::new("C18", "panic(gen_ascii_char)", format!("PRNG source: gen_ascii_char panicked within {} draws", n)),
+            }),
+            _ => {}
+        }
     }
     found
 }
@@ -444,15 +514,46 @@ pub fn prng_boundary_hunt(seed: u64, draws_wide: u64, stats: &mut Stats) -> Vec<
 fn replay_hunt(h: &Value) -> Vec<Violation> {
     let g = |k: &str| h[k].as_str().and_then(|s| s.parse::<u64>().ok()).unwrap_or(0);
     let (sd, n, a, b) = (g("prng_seed"), g("draws_before"), g("a") as usize, g("b") as usize);
+    let method = h["method"].as_str().unwrap_or("gen_range").to_string();
     let mut rng = ChaCha8Rng::seed_from_u64(sd);
     let mut src = GenerationSource::Rand(&mut rng);
-    for i in 0..=n {
-        let x = src.gen_range(a, b);
-        if x < a || x >= b {
-            return vec![Violation::new("C18", "out-of-range(gen_range)", format!("gen_range({}, {}) returned {} on draw #{}", a, b, x, i))];
+    let r = std::panic::catch_unwind(std::panic::AssertUnwindSafe(|| {
+        for i in 0..=n {
+            match method.as_str() {
+                "gen_ascii_char" => {
+                    let c = src.gen_ascii_char();
+                    if !(0x20..0x7f).contains(&(c as u32)) {
+                        return vec![Violation::new("C18", "out-of-range(gen_ascii_char)", format!("gen_ascii_char returned U+{:04X} on draw #{}", c as u32, i))];
+                    }
+                }
+                "choose_index" => {
+                    let x = src.choose_index(b - a);
+                    if x >= b - a {
+                        return vec![Violation::new("C18", "out-of-range(choose_index)", format!("choose_index({}) returned {} on draw #{}", b - a, x, i))];
+                    }
+                }
+                _ => {
+                    let x = src.gen_range(a, b);
+                    if x < a || x >= b {
+                        return vec![Violation::new("C18", "out-of-range(gen_range)", format!("gen_range({}, {}) returned {} on draw #{}", a, b, x, i))];
+                    }
+                }
+            }
+        }
+        vec![]
+    }));
+    match r {
+        Ok(v) => v,
+        Err(_) => {
+            let _ = crate::exec::take_panic();
+            let class = match method.as_str() {
+                "gen_ascii_char" => "panic(gen_ascii_char)",
+                "choose_index" => "out-of-range(choose_index)",
+                _ => "out-of-range(gen_range)",
+            };
+            vec![Violation::new("C18", class, format!("{} panicked within {} draws", method, n))]
         }
     }
-    vec![]
 }
 
 // ------------------------------------------------------------------------------------------
@@ -762,16 +863,71 @@ fn entropy_grid(rng: &mut ChaCha8Rng, n_random: usize) -> Vec<(Entropy, &'static
     v
 }
 
+/// hostile integer patterns: the little-endian image of every width / sign edge of the integer types
+/// the mutators draw (i32, and its i8 / i16 / i24 sub-widths), placed at every offset 0..=12 of an
+/// otherwise all-zero or all-ones script - whatever the mutator draws first (gate roll, choice
+/// byte, direction), one of the offsets puts the edge value into its integer draw
+pub const EDGE_I32: [i32; 22] = [
+    i32::MIN, i32::MIN + 1, i32::MAX, i32::MAX - 1, -1, 0, 1, -128, -129, 127, 128, 255, 256, -32768, -32769, 32767, 32768, 65535, 65536, -8388608, -8388609, 8388607,
+];
+
+fn integer_edge_grid() -> Vec<(Entropy, &'static str)> {
+    let mut v = vec![];
+    for bg in [0x00u8, 0xff] {
+        for at in 0..=12usize {
+            for e in EDGE_I32 {
+                let mut s = vec![bg; at + 4 + 6];
+                s[at..at + 4].copy_from_slice(&e.to_le_bytes());
+                v.push((Entropy::Bytes(s), "hostile_integer_edge"));
+            }
+        }
+    }
+    v
+}
+
 /// comp sweep for C15 (rate extremes) or C16 (contracts); `rounds` independent value/entropy grids
 pub fn sweep_mutators(prop: &'static str, seed: u64, rounds: u64) -> CompOutcome {
+    // rounds are independent (each derives its own PRNG): run them on separate threads and merge in
+    // round order, so that the result does not depend on the number of threads
+    let nt = crate::engine::n_threads() as u64;
+    let mut parts: Vec<(u64, Stats, Vec<Found2>)> = std::thread::scope(|s| {
+        let hs: Vec<_> = (0..nt.min(rounds.max(1)))
+            .map(|t| {
+                s.spawn(move || {
+                    let mut out = vec![];
+                    let mut r = t;
+                    while r < rounds {
+                        let (st, f) = sweep_mutators_round(prop, seed, r);
+                        out.push((r, st, f));
+                        r += nt;
+                    }
+                    out
+                })
+            })
+            .collect();
+        hs.into_iter().flat_map(|h| h.join().unwrap()).collect()
+    });
+    parts.sort_by_key(|p| p.0);
+    let mut stats = Stats::default();
+    let mut found = vec![];
+    for (_, st, f) in parts {
+        stats.merge(st);
+        found.extend(f);
+    }
+    found.truncate(20);
+    CompOutcome { stats, found, exhaustive_upto: 0 }
+}
+
+fn sweep_mutators_round(prop: &'static str, seed: u64, round: u64) -> (Stats, Vec<Found2>) {
     let mut stats = Stats::default();
     let mut found: Vec<Found2> = vec![];
     let mut distinct = std::collections::HashSet::new();
-    let mut idx = 0u64;
-    for round in 0..rounds {
+    let mut idx = round << 32;
+    {
         let mut rng = ChaCha8Rng::seed_from_u64(desc::derive_seed(seed, &format!("{}.comp", prop), round));
         let values = value_grid(&mut rng);
-        let entropies = entropy_grid(&mut rng, 6);
+        let mut entropies = entropy_grid(&mut rng, 6);
+        entropies.extend(integer_edge_grid());
         let rates: Vec<f64> = if prop == "C15" { vec![0.0, 1.0] } else { vec![1.0, 1.0, 0.5, rng.random::<f64>()] };
         for kind in 0..7u8 {
             for unsafe_mode in [false, true] {
@@ -838,7 +994,7 @@ pub fn sweep_mutators(prop: &'static str, seed: u64, rounds: u64) -> CompOutcome
         }
     }
     stats.nontrivial = distinct;
-    CompOutcome { stats, found, exhaustive_upto: 0 }
+    (stats, found)
 }
 
 /// replay of a comp case
